@@ -1,18 +1,52 @@
 import Gp.Go.Basic
 import Gp.Gen.Cksum
 /-
-  Internet checksum helpers (checksum.go ComputeChecksum / FoldChecksum, layers/tcpip.go
-  pseudoheaderChecksum / computeChecksum).  `fold` calls the definition REGENERATED from
-  checksum.go (Gp/Gen/Cksum.lean).  The uint32 accumulator wraps modulo 2^32 exactly as in Go.
-  Shared API used by the layer models; the theorems about it are in Gp/Props/C08.
+  Internet checksum helpers (checksum.go ComputeChecksum / reduceChecksum / FoldChecksum,
+  layers/tcpip.go pseudoheaderChecksum / computeChecksum).
+
+  `fold` calls the definition REGENERATED from checksum.go (Gp/Gen/Cksum.lean).
+
+  `compute` models ComputeChecksum AFTER the fix proposed_fixes/cksum-2-sum-carries: the sum is
+  accumulated in a uint64 (`sum64`, wrapping modulo 2^64 exactly as Go would) and carries beyond 32
+  bits are added back in by `reduce` (checksum.go reduceChecksum; Gp/Props/C08 proves
+  `reduce_matches_source`: `reduce` equals the definition regenerated from the source).  For every
+  input whose running sum stays below 2^32 (all inputs shorter than 128 KiB, i.e. everything but IPv6
+  jumbograms) this is bit-for-bit the value of the old uint32 accumulator, which is kept as
+  `compute32` (the pre-fix code) for the regression theorem `compute32_wraps_witness`.
+
+  Shared API used by the layer models (`W32 compute fold pseudo4 pseudo6 l4sum`); the theorems
+  about it are in Gp/Props/C08.  Core Lean only.
 -/
 namespace Gp.Cksum
 
 def W32 : Nat := 4294967296
+def W64 : Nat := 18446744073709551616
 
-/-- checksum.go ComputeChecksum(data, csum): big-endian 16-bit words added into a uint32. -/
-def compute : Bytes → Nat → Nat
-  | a :: b :: rest, c => compute rest ((((c + a.toNat * 256) % W32) + b.toNat) % W32)
+/-- The accumulation loop of checksum.go ComputeChecksum: big-endian 16-bit words (an odd trailing
+    byte is the high byte of a last word) added into a uint64. -/
+def sum64 : Bytes → Nat → Nat
+  | a :: b :: rest, s => sum64 rest ((((s + a.toNat * 256) % W64) + b.toNat) % W64)
+  | [a], s => (s + a.toNat * 256) % W64
+  | [], s => s
+
+/-- loop of checksum.go reduceChecksum: `for sum > 0xffffffff { sum = (sum >> 16) + (sum & 0xffff) }`
+    on a uint64, fuel-bounded (C08.reduce_fuel_suffices). -/
+def reduceLoop : Nat → Nat → Nat
+  | 0, s => s
+  | fuel + 1, s =>
+    if s > 4294967295 then reduceLoop fuel ((s / 65536 + s % 65536) % W64) else s
+
+/-- checksum.go reduceChecksum(sum uint64) uint32. -/
+def reduce (s : Nat) : Nat := reduceLoop 4 s % W32
+
+/-- checksum.go ComputeChecksum(data, csum). -/
+def compute (data : Bytes) (c : Nat) : Nat := reduce (sum64 data c)
+
+/-- checksum.go ComputeChecksum as it was BEFORE the fix: the same words added into a uint32
+    (carries out of bit 31 are dropped).  Not used by any model; kept for
+    C08.compute32_wraps_witness. -/
+def compute32 : Bytes → Nat → Nat
+  | a :: b :: rest, c => compute32 rest ((((c + a.toNat * 256) % W32) + b.toNat) % W32)
   | [a], c => (c + a.toNat * 256) % W32
   | [], c => c
 
@@ -39,6 +73,14 @@ def pseudo6 : Bytes → Bytes → Nat → Nat
     pseudo6 ss ds c
   | _, _, c => c
 
+/-- the accumulator handed to ComputeChecksum by layers/tcpip.go computeChecksum:
+    pseudo-header sum + protocol + the two 16-bit halves of uint32(len). -/
+def l4init (pseudo : Nat) (proto : Nat) (len : Nat) : Nat :=
+  let length := len % W32
+  let c := (pseudo + proto) % W32
+  let c := (c + length % 65536) % W32
+  (c + length / 65536) % W32
+
 /-- layers/tcpip.go computeChecksum: pseudo-header sum + protocol + length words + data. -/
 def l4sum (pseudo : Nat) (proto : Nat) (headerAndPayload : Bytes) : Nat :=
   let length := headerAndPayload.length % W32
@@ -46,5 +88,33 @@ def l4sum (pseudo : Nat) (proto : Nat) (headerAndPayload : Bytes) : Nat :=
   let c := (c + length % 65536) % W32
   let c := (c + length / 65536) % W32
   compute headerAndPayload c
+
+/-! ### Specification side (RFC 1071), written independently of the code above -/
+
+/-- plain (unbounded) sum of the big-endian 16-bit words of `data`; an odd trailing byte is padded
+    with a zero byte on the right (RFC 1071 §4.1). -/
+def wordsum : Bytes → Nat
+  | a :: b :: rest => a.toNat * 256 + b.toNat + wordsum rest
+  | [a] => a.toNat * 256
+  | [] => 0
+
+/-- the 16-bit words of `data` (odd trailing byte padded with zero) -/
+def words : Bytes → List Nat
+  | a :: b :: rest => (a.toNat * 256 + b.toNat) :: words rest
+  | [a] => [a.toNat * 256]
+  | [] => []
+
+/-- 16-bit one's-complement addition: add, and add the carry out of bit 15 back in (end-around carry) -/
+def ocAdd (a b : Nat) : Nat := if a + b ≥ 65536 then a + b - 65535 else a + b
+
+/-- one's-complement sum of a list of 16-bit words -/
+def ocSum (ws : List Nat) : Nat := ws.foldl ocAdd 0
+
+/-- RFC 1071 Internet checksum of a byte string: the complement of the one's-complement sum -/
+def rfc1071 (data : Bytes) : Nat := 65535 - ocSum (words data)
+
+/-- the one's-complement representative of a natural number: 0 for 0, otherwise the value in
+    1..65535 congruent to it modulo 65535 (so multiples of 65535 are 0xffff, "negative zero") -/
+def ocRep (n : Nat) : Nat := if n = 0 then 0 else (n - 1) % 65535 + 1
 
 end Gp.Cksum
